@@ -216,6 +216,7 @@ def parseValueU (s : String) : Value :=
 
 /-- one annotation spec as a hint: `-` plain; `cls,opt,shape` Annotated (wrapped in a Union with None when opt) -/
 def specToHint (s : String) : Except String Hint :=
+  if s == "-a" then .ok (.annotated false none) else   -- `Annotated[int, 'count']`: metadata that is no dltype annotation
   match parseAnnSpec s with
   | .absent => .ok .plain
   | .bad e => .error e
@@ -231,13 +232,16 @@ def specToHint (s : String) : Except String Hint :=
     | some "5" => .ok (.union [.none, h])
     | some "6" => .ok (.annotated false (some { a with optional := false }))
     | some "7" => .ok (.union [h, .none])
+    | some "8" => .ok (.union [.plain, h])           -- `Union[int, T]`
+    | some "9" => .ok (.union [.none, .plain, h])    -- `Union[None, float, T]`
     | _ => .ok h
 
 def hintOf (mode specs : String) : Except String Hint := do
   if mode == "S" then specToHint specs
   else
     let hs ← (splitSemi specs).mapM specToHint
-    pure (.tuple hs)
+    if mode == "TO" then pure (.union [.tuple hs, .none])   -- `Optional[tuple[...]]`
+    else pure (.tuple hs)
 
 structure CallSpec where
   params : List (Name × Hint × Value) := []
@@ -522,6 +526,7 @@ def unionKind (opt : String) (h : Hint) : Hint :=
   match opt with
   | "1" => .union [h, .none] | "2" => .union [h, .plain] | "3" => .union [h, .plain, .none]
   | "4" => .union [h, .none] | "5" => .union [.none, h] | "7" => .union [h, .none]
+  | "8" => .union [.plain, h] | "9" => .union [.none, .plain, h]
   | _ => h
 
 /-- `alias:opt` | `-` -/
